@@ -1163,13 +1163,16 @@ class CreateTypeParametersForSignatures(Visitor):
     super().__init__()
     self.parameter = None
     self.class_name = None
+    self.class_depth = 0
     self.function_name = None
 
   def EnterClass(self, node):
     self.class_name = node.name
+    self.class_depth += 1
 
   def LeaveClass(self, _):
     self.class_name = None
+    self.class_depth -= 1
 
   def EnterFunction(self, node):
     self.function_name = node.name
@@ -1199,6 +1202,11 @@ class CreateTypeParametersForSignatures(Visitor):
     Returns:
       True if the signature needs a class param, False otherwise.
     """
+    if self.class_depth > 1:
+      # The name of a nested class is relative to the enclosing class while
+      # the types in its signatures are not, so a type printed like the class
+      # name may be a different, module-level class.
+      return False
     if self.class_name and self.function_name and sig.params:
       # Printing the class name escapes illegal characters.
       safe_class_name = pytd_utils.Print(pytd.NamedType(self.class_name))
